@@ -42,7 +42,8 @@ pub struct StackCase {
     pub h2: bool,
     /// bit0 client offers h2, bit1 client offers http/1.1, bit2 server offers h2, bit3 server offers http/1.1
     pub alpn: u8,
-    /// caller-supplied Host header: 0 none, 1 same host other case, 2 a different host, 3 same host with port
+    /// caller-supplied Host header: 0 none, 1 same host other case, 2 a different host, 3 same host with port,
+    /// 4 a different host that the server's certificate covers as well
     pub host_header: u8,
     /// 0 https request; 1 plaintext (http scheme) to the TLS listener; 2 truncated ClientHello then close;
     /// 3 connect and stay silent during the handshake
@@ -74,11 +75,11 @@ impl StackCase {
         [("https", true), ("wss", true), ("http", false), ("ws", false)][self.schemes[i % self.schemes.len()] as usize % 4]
     }
     pub fn variants(&self) -> Vec<u8> {
-        let mut v = vec![self.host_header % 4];
+        let mut v = vec![self.host_header % 5];
         if self.second_request {
-            v.push(self.host_header % 4);
+            v.push(self.host_header % 5);
         }
-        v.extend(self.extra.iter().map(|x| x % 4));
+        v.extend(self.extra.iter().map(|x| x % 5));
         v
     }
 }
@@ -273,10 +274,11 @@ impl Engine for StackEngine {
                         .uri(format!("{scheme}://{auth2}/{}?t={}", String::from_utf8_lossy(marker), String::from_utf8_lossy(marker)))
                         .header("x-seq", seq)
                         .header("x-secret", std::str::from_utf8(marker).unwrap());
-                    match variant % 4 {
+                    match variant % 5 {
                         1 => b = b.header("host", HOSTS[c2.host as usize % HOSTS.len()].0.to_ascii_uppercase()),
                         2 => b = b.header("host", "evil.test"),
                         3 => b = b.header("host", format!("{}:8443", HOSTS[c2.host as usize % HOSTS.len()].0)),
+                        4 => b = b.header("host", if HOSTS[c2.host as usize % HOSTS.len()].0.eq_ignore_ascii_case("a.test") { "example.com" } else { "a.test" }),
                         _ => {}
                     }
                     b.body(hyperdriver::Body::from(body)).unwrap()
@@ -401,7 +403,7 @@ impl Engine for StackEngine {
                 for (seq, (variant, result)) in c.variants().into_iter().zip(results.iter()).enumerate() {
                     // on an HTTP/2 connection the client removes a caller-supplied Host header (C13), so
                     // only HTTP/1 connections carry the foreign Host to the server
-                    let host_hdr_mismatch = variant == 2 && !(c.h2 || negotiated_h2);
+                    let host_hdr_mismatch = (variant == 2 || variant == 4) && !(c.h2 || negotiated_h2);
                     let reached: Option<&SeenEntry> = seen.entries.iter().find(|e| e.seq == seq);
                     let (scheme, secure) = c.scheme_of(seq);
                     let rdesc = format!("request {seq} ({scheme}, Host variant {variant}) -> {result:?}; {desc}");
@@ -443,6 +445,12 @@ impl Engine for StackEngine {
                                 s.as_deref() != Some(want.as_str()) && !(i + 1 == n && i > 0 && s.as_deref() == Some("example.com"))
                             }) {
                                 rep.violate("C12/fullstack-wrong-server-name-offered", rdesc.clone());
+                            }
+                        } else {
+                            // an address is never offered as a server name, whatever the Host header says
+                            let n = sni.len();
+                            if sni.iter().enumerate().any(|(i, s)| s.is_some() && !(i + 1 == n && i > 0 && s.as_deref() == Some("example.com"))) {
+                                rep.violate("C12/fullstack-wrong-server-name-offered", format!("{rdesc}: expected no server name for an address literal"));
                             }
                         }
                         // ---- C13: protocol = HTTP/2 iff requested or negotiated
@@ -514,11 +522,11 @@ pub fn strategy() -> impl proptest::strategy::Strategy<Value = StackCase> {
         prop_oneof![2 => Just(None), 1 => Just(Some(443u16)), 1 => Just(Some(8443u16))],
         any::<bool>(),
         prop_oneof![3 => 0u8..16, 2 => 16u8..64],
-        prop_oneof![4 => Just(0u8), 1 => Just(1u8), 2 => Just(2u8), 1 => Just(3u8)],
+        prop_oneof![4 => Just(0u8), 1 => Just(1u8), 2 => Just(2u8), 1 => Just(3u8), 1 => Just(4u8)],
         prop_oneof![6 => Just(0u8), 1 => Just(1u8), 1 => Just(2u8), 1 => Just(3u8)],
         prop_oneof![Just(0u16), 1u16..200, 200u16..20000],
         any::<bool>(),
-        prop_oneof![2 => Just(vec![]), 3 => proptest::collection::vec(prop_oneof![3 => Just(0u8), 1 => Just(1u8), 2 => Just(2u8), 1 => Just(3u8)], 1..5)],
+        prop_oneof![2 => Just(vec![]), 3 => proptest::collection::vec(prop_oneof![3 => Just(0u8), 1 => Just(1u8), 2 => Just(2u8), 1 => Just(3u8), 1 => Just(4u8)], 1..5)],
         0u8..2,
         prop_oneof![2 => Just(vec![]), 1 => proptest::collection::vec(0u8..4, 1..5)],
     )
